@@ -62,7 +62,9 @@ func (c19) Gates(tier string, m map[string]int64) []rt.Gate {
 
 func c19Data(prefix string, n int) []refstore.Pair {
 	return gen.Dense(n, prefix, func(i int) string {
-		switch i % 5 {
+		switch i % 6 {
+		case 5:
+			return fmt.Sprintf("%d,%d,%d", i%3, i, (i*7)%11) // a vector written as text
 		case 0:
 			return fmt.Sprint(i % 7)
 		case 1:
@@ -95,6 +97,8 @@ func c19Statements(r *rt.Rand, p string, n int, mutable bool) []string {
 		"select * where key between '%[1]s002' and '%[1]s009' & value != 'zz'",
 		"select * where key > '%[1]s010' & key <= '%[1]s020' order by value, key desc",
 		"select key, l2_distance(list(1,2,3), list(strlen(key), int(value), 2)) as d where key ^= '%[1]s' order by d limit 3",
+		"select key, l2_distance(list(1,2,3), split(value, ',')) as d where key ^= '%[1]s' & value ~= '^[0-9]+,[0-9]+,[0-9]+$' order by d, key limit 5",
+		"select key, cosine_distance(split(value, ','), list(3,2,1)) as d where key ^= '%[1]s' & value ~= '^[0-9]+,[0-9]+,[0-9]+$' & d >= 0",
 		"select * where key ^= '%[1]s' & nosuch(value) = 1",
 		"select * where key ^= '%[1]s' & value = 1",
 		"select key, 10 / (int(value) - int(value)) where key ^= '%[1]s'",
